@@ -231,6 +231,28 @@ class C10(MsgProp):
             ctx.violations.append({"op": op[:3000], "profile": prof, "oracle": "FAIL C10 " + why})
 
 
+# standard positions (RTCM 10403.3 MSM signal tables + Amendment 1 for BeiDou; RINEX 3 codes), written out
+# here independently of the source, as in lean/Rtcm/Props/C18.lean
+def _ref(rows):
+    return {(b, ord(a)): i for i, b, a in rows}
+
+
+REF_SIG = {
+    "gps": _ref([(2, 1, "C"), (3, 1, "P"), (4, 1, "W"), (8, 2, "C"), (9, 2, "P"), (10, 2, "W"), (15, 2, "S"), (16, 2, "L"),
+                 (17, 2, "X"), (22, 5, "I"), (23, 5, "Q"), (24, 5, "X"), (30, 1, "S"), (31, 1, "L"), (32, 1, "X")]),
+    "glo": _ref([(2, 1, "C"), (3, 1, "P"), (8, 2, "C"), (9, 2, "P")]),
+    "gal": _ref([(2, 1, "C"), (3, 1, "A"), (4, 1, "B"), (5, 1, "X"), (6, 1, "Z"), (8, 6, "C"), (9, 6, "A"), (10, 6, "B"),
+                 (11, 6, "X"), (12, 6, "Z"), (14, 7, "I"), (15, 7, "Q"), (16, 7, "X"), (18, 8, "I"), (19, 8, "Q"),
+                 (20, 8, "X"), (22, 5, "I"), (23, 5, "Q"), (24, 5, "X")]),
+    "sbas": _ref([(2, 1, "C"), (22, 5, "I"), (23, 5, "Q"), (24, 5, "X")]),
+    "qzss": _ref([(2, 1, "C"), (9, 6, "S"), (10, 6, "L"), (11, 6, "X"), (15, 2, "S"), (16, 2, "L"), (17, 2, "X"),
+                  (22, 5, "I"), (23, 5, "Q"), (24, 5, "X"), (30, 1, "S"), (31, 1, "L"), (32, 1, "X")]),
+    "bds": _ref([(2, 2, "I"), (3, 2, "Q"), (4, 2, "X"), (8, 6, "I"), (9, 6, "Q"), (10, 6, "X"), (14, 7, "I"), (15, 7, "Q"),
+                 (16, 7, "X"), (22, 5, "D"), (23, 5, "P"), (24, 5, "X"), (25, 7, "D"), (30, 1, "D"), (31, 1, "P"), (32, 1, "X")]),
+    "navic": _ref([(22, 5, "A")]),
+}
+
+
 @register
 class C18(Prop):
     id = "C18"
@@ -291,7 +313,10 @@ class C18(Prop):
             mf = g.frags[g.mod_of[n]]
             dseg = [x for _, x in mf["fields"] if x in g.frags and g.frags[x]["macro"] == "msm_data_seg_frag"][0]
             f = g.frags[dseg]
-            for i, b, a in g.s["sig_tables"][f["gnss"]]:
+            rows = {(b, a): i for i, b, a in g.s["sig_tables"][f["gnss"]]}
+            for (b, a), i in REF_SIG[f["gnss"]].items():
+                rows[(b, a)] = i            # the standard's position wins: a moved row is a failing input
+            for (b, a), i in sorted(rows.items()):
                 head = []
                 for _, x in mf["fields"]:
                     if x == dseg:
